@@ -219,7 +219,7 @@ func ruleR27() *Rule {
 	return &Rule{
 		ID:    "R27",
 		Title: "RECORD-WIDTHS: fixed-width big-endian records below the footer keep their v16 widths, strides and order on the writer and on the reader side",
-		Props: []string{"C09", "C04", "C02", "C03"},
+		Props: []string{"C09", "C04", "C02", "C03", "C05"},
 		Floor: floorFor("R27"),
 		Run: func(c *RuleCtx) {
 			// ---- 1. field table ----------------------------------------------------
